@@ -15,7 +15,9 @@ TICKETERS = ['KT1BEqzn5Wx8uJrZNvuS9DVHmLvG9td3fDLi', 'KT1VG2WtYdSWz5E7chTeAdDPZN
 AMOUNTS = [0, 1, 1, 2, 2, 3, 3, 5, 2 ** 64, 10 ** 30]
 CONTENT_TYPES = [('nat',), ('string',), ('unit',), ('pair', ('nat',), ('string',)),
                  # optional contents whose payload has a value Python treats as false: `Some ""` / `Some False` are not `None`
-                 ('option', ('string',)), ('option', ('bool',)), ('pair', ('nat',), ('option', ('string',)))]
+                 ('option', ('string',)), ('option', ('bool',)), ('pair', ('nat',), ('option', ('string',))),
+                 # unions whose two branches hold the same payload type: `Left v` and `Right v` are different contents
+                 ('or', ('nat',), ('nat',)), ('or', ('unit',), ('unit',)), ('pair', ('or', ('string',), ('string',)), ('nat',))]
 
 
 # ---------------------------------------------------------------------------------------------- printers
@@ -208,6 +210,8 @@ def rand_content(rng, t):
         return ('bool', rng.random() < 0.4)
     if t[0] == 'option':
         return ('none', t[1]) if rng.random() < 0.45 else ('some', rand_content(rng, t[1]))
+    if t[0] == 'or':
+        return ('left', rand_content(rng, t[1]), t[2]) if rng.random() < 0.5 else ('right', t[1], rand_content(rng, t[2]))
     return ('pair', rand_content(rng, t[1]), rand_content(rng, t[2]))
 
 
